@@ -165,7 +165,10 @@ PURE_EXTERNAL = {
     "shlex.quote": lambda s: tok("quote:" + s) if "⟦" in s else shlex.quote(s),
     "re.compile": re.compile, "re.sub": re.sub, "re.findall": re.findall, "re.search": re.search, "re.match": re.match, "re.fullmatch": re.fullmatch,
     "copy.copy": lambda x: x.copy() if hasattr(x, "copy") else x,
-    "unicodedata.category": unicodedata.category,
+    "unicodedata.category": unicodedata.category, "unicodedata.normalize": unicodedata.normalize,
+    "os.path.expanduser": lambda p: tok("home:" + str(p)) if str(p).startswith("~") else p,
+    "os.path.expandvars": lambda p: tok("vars:" + str(p)) if "$" in str(p) else p,
+    "os.path.normcase": lambda p: p,
     "json.loads": lambda s_, *a, **k: __import__("json").loads(s_),
     "json.dumps": lambda o, *a, **k: __import__("json").dumps(o, sort_keys=bool(k.get("sort_keys")), indent=k.get("indent"), default=(str if k.get("default") is not None else None)),
     "itertools.chain": lambda *its: __import__("itertools").chain(*its),
@@ -197,12 +200,17 @@ PURE_EXTERNAL = {
 }
 SAFE_METHODS = {
     str: {"format", "join", "strip", "rstrip", "lstrip", "split", "splitlines", "replace", "startswith", "endswith", "lower", "upper", "partition",
-          "rpartition", "center", "ljust", "rjust", "encode", "isdigit", "count", "find", "title"},
-    list: {"append", "extend", "copy", "index", "count", "insert", "pop", "sort", "reverse"},
-    dict: {"items", "keys", "values", "get", "update", "copy", "pop", "setdefault"},
-    set: {"add", "union", "issuperset", "issubset", "difference", "intersection", "update", "copy", "discard"},
-    frozenset: {"union", "issuperset", "issubset", "difference", "intersection"},
-    tuple: {"index", "count"},
+          "rpartition", "center", "ljust", "rjust", "encode", "isdigit", "count", "find", "title", "removeprefix", "removesuffix", "rsplit", "zfill", "casefold",
+          "isidentifier", "isalpha", "isalnum", "isspace", "format_map", "expandtabs", "capitalize", "swapcase", "rfind", "index", "rindex",
+          "__contains__", "__getitem__", "__len__", "__add__", "__mod__", "__eq__", "__ne__", "__lt__", "__le__", "__gt__", "__ge__"},
+    list: {"append", "extend", "copy", "index", "count", "insert", "pop", "sort", "reverse", "clear", "remove", "__contains__", "__getitem__", "__setitem__", "__delitem__",
+           "__len__", "__iter__", "__add__", "__eq__"},
+    dict: {"items", "keys", "values", "get", "update", "copy", "pop", "setdefault", "clear", "popitem", "__contains__", "__getitem__", "__setitem__", "__delitem__", "__len__",
+           "__iter__", "__eq__", "__or__"},
+    set: {"add", "union", "issuperset", "issubset", "difference", "intersection", "update", "copy", "discard", "remove", "clear", "pop", "symmetric_difference", "isdisjoint",
+          "difference_update", "intersection_update", "__contains__", "__len__", "__iter__", "__or__", "__and__", "__sub__", "__eq__"},
+    frozenset: {"union", "issuperset", "issubset", "difference", "intersection", "isdisjoint", "__contains__", "__len__", "__iter__"},
+    tuple: {"index", "count", "__contains__", "__getitem__", "__len__", "__iter__", "__add__", "__eq__"},
     bytes: {"decode"},
     re.Pattern: {"fullmatch", "match", "search", "sub", "findall"},
     ChainMap: {"get", "items", "keys", "values", "pop", "update", "new_child"},
@@ -717,7 +725,7 @@ class PureInterp:
 
     def _pycallable(self, v, depth):
         """Interpreter-level callables (lambdas, closures, repo functions) wrapped for host builtins such as sorted(key=...)."""
-        if isinstance(v, FuncInfo) or (isinstance(v, tuple) and v and v[0] in ("lambda", "closure", "bound", "memo", "partial", "hookattr")):
+        if isinstance(v, FuncInfo) or (isinstance(v, tuple) and v and v[0] in ("lambda", "closure", "bound", "memo", "partial", "hookattr", "method", "rawfunc")):
             return lambda *a, **k: self.apply(v, list(a), k, depth)
         if isinstance(v, FuncRef):   # str, len, os.path.basename ... handed to a host builtin as key=/default=
             return lambda *a, **k: self.apply(v, list(a), k, depth)
@@ -885,6 +893,10 @@ class PureInterp:
             cv = self._class_attr(o, n.attr)
             if cv is not Ellipsis:
                 return cv
+            if n.attr in ("__name__", "__qualname__"):
+                return o.name
+            if n.attr == "__module__":
+                return o.module.name
             raise Raised("AttributeError", n.attr)
         if callable(o) and not isinstance(o, (Obj, ClassInfo, FuncInfo, FuncRef)) and n.attr in ("__name__", "__qualname__", "__doc__"):
             return getattr(o, n.attr, None)
@@ -1102,20 +1114,38 @@ class PureInterp:
             isinstance(n.func, ast.Attribute) and isinstance(n.func.value, ast.Name) and n.func.value.id in env) and not (
             isinstance(n.func, ast.Name) and n.func.id in env) else None
         if canon in self.hooks:
-            return self.hooks[canon](*args, **kwargs)
+            return self._hook(self.hooks[canon], args, kwargs)
         if isinstance(n.func, ast.Attribute) and ("attr:" + n.func.attr) in self.hooks:
             recv = None
             try:
                 recv = self.eval(n.func.value, env, module, depth)
             except (Unsupported, Raised):
                 pass
-            return self.hooks["attr:" + n.func.attr](recv, *args, **kwargs)
+            return self._hook(self.hooks["attr:" + n.func.attr], [recv] + list(args), kwargs)
         if isinstance(n.func, ast.Attribute) and dotted(n.func.value) in ("logger", "logging", "log") and dotted(n.func.value) not in env \
                 and n.func.attr in ("debug", "info", "warning", "warn", "error", "exception", "critical", "log"):
             self.events.append(("log", n.func.attr, tuple(args)))
             return None
         f = self.eval(n.func, env, module, depth)
         return self.apply(f, args, kwargs, depth, n)
+
+    @staticmethod
+    def _hook(h, args, kwargs):
+        """Call a recording hook that stands for a function with the signature it has on the analysed tree's ancestor: arguments the hook does not know
+        (a parameter added later, with a default) are dropped instead of failing the evaluation with a TypeError that the program would not raise."""
+        import inspect
+        try:
+            sig = inspect.signature(h)
+        except (TypeError, ValueError):
+            return h(*args, **kwargs)
+        params = list(sig.parameters.values())
+        if not any(p_.kind == p_.VAR_KEYWORD for p_ in params):
+            names = {p_.name for p_ in params if p_.kind in (p_.POSITIONAL_OR_KEYWORD, p_.KEYWORD_ONLY)}
+            kwargs = {k: v for k, v in kwargs.items() if k in names}
+        if not any(p_.kind == p_.VAR_POSITIONAL for p_ in params):
+            n_pos = sum(1 for p_ in params if p_.kind in (p_.POSITIONAL_ONLY, p_.POSITIONAL_OR_KEYWORD))
+            args = list(args)[:n_pos]
+        return h(*args, **kwargs)
 
     def apply(self, f, args, kwargs, depth, node=None):
         if isinstance(f, FuncInfo):
@@ -1128,7 +1158,7 @@ class PureInterp:
                 return self.call(fi, args[1:], kwargs, self_obj=args[0], depth=depth + 1, _raw=True)
             return self.call(fi, args, kwargs, depth=depth + 1, _raw=True)
         if isinstance(f, tuple) and f and f[0] == "hookattr":
-            return self.hooks["attr:" + f[1]](f[2], *args, **kwargs)
+            return self._hook(self.hooks["attr:" + f[1]], [f[2]] + list(args), kwargs)
         if isinstance(f, tuple) and f and f[0] == "closure":
             return self.call(f[1], args, kwargs, depth=depth + 1, closure=f[2])
         if isinstance(f, tuple) and f and f[0] == "ntclass":
@@ -1173,7 +1203,7 @@ class PureInterp:
         if isinstance(f, FuncRef):
             name = f.name
             if name in self.hooks:
-                return self.hooks[name](*args, **kwargs)
+                return self._hook(self.hooks[name], args, kwargs)
             obj = self.index.lookup(name)
             if isinstance(obj, FuncInfo):
                 return self.call(obj, args, kwargs, depth=depth + 1)
@@ -1217,6 +1247,18 @@ class PureInterp:
                 if b == "setattr":
                     setattr(args[0], args[1], args[2])
                     return None
+                if b == "type" and len(args) == 1:
+                    v0 = args[0]
+                    if isinstance(v0, Obj):
+                        cls0 = v0.__dict__["_attrs"].get("__class__")
+                        if isinstance(cls0, ClassInfo):
+                            return cls0
+                        nm0 = v0._name[4:] if v0._name.startswith("exc:") else v0._name
+                        return Obj("type", __name__=nm0, __qualname__=nm0, __module__="builtins")
+                    if isinstance(v0, EnumVal):
+                        cls0 = self.index.lookup(v0.cls)
+                        return cls0 if isinstance(cls0, ClassInfo) else Obj("type", __name__=v0.cls.rsplit(".", 1)[-1])
+                    return type(v0)
                 if b == "hasattr":
                     o = args[0]
                     return (args[1] in o.__dict__["_attrs"]) if isinstance(o, Obj) else hasattr(o, args[1])
